@@ -396,6 +396,53 @@ def collected_sets(model, chk):
 # ----------------------------------------------------------------------
 # R13.1
 
+EVT = "dclab/rtdc_dataset/fmt_hdf5/events.py"
+
+
+def r131_reader(ctx, repo, model):
+    """the HDF5 reader offers every stored feature dataset to the checker
+    (only an empty trace group is hidden): H5Events._features interpreted on
+    a model file with truncated (zero-length) datasets"""
+    cls = repo.cls(EVT, "H5Events")
+    interp = model.interp
+    g = {"dfn": model.globs["dfn"], "np": model.globs["np"],
+         "h5py": model.globs["h5py"]}
+    module_level(repo.tree(EVT), g, interp, assigns=False)
+    cm = ClassModel(cls, g, interp)
+    file = object()
+    h5 = H5Group(file)
+    ev = H5Group(file, "/events")
+    h5["events"] = ev
+    ev["deform"] = H5Dataset((N,), file)
+    ev["volume"] = H5Dataset((0,), file)
+    ev["image"] = H5Dataset((0, H, W), file)
+    ev["mask"] = H5Dataset((N, H, W), file)
+    ev["trace"] = H5Group(file, "/events/trace")
+    node = [f for f in cls.body if isinstance(f, ast.FunctionDef)
+            and f.name == "_features"]
+    if not node:
+        raise AnalysisError("H5Events._features vanished")
+    try:
+        inst = cm("h5file-model") if False else cm(h5)
+        interp.steps = 0
+        feats = list(interp.getattr(inst, "_features", node[0]))
+        feats2 = list(interp.getattr(inst, "_features", node[0]))
+        err = None
+    except ModelRaise as e:
+        feats, feats2, err = None, None, e
+    want = ["deform", "image", "mask", "volume"]
+    ok = err is None and sorted(feats) == want and feats2 == feats
+    ctx.ob("R13.1", ok, "the reader lists every stored feature dataset, "
+           "also truncated (zero-length) ones, and hides only the empty "
+           "trace group" if ok else
+           "H5Events._features " + (f"raises {err.name}" if err else
+                                    f"lists {feats}") + f" for a file with "
+           f"the datasets {want} (volume and image hold 0 events) and an "
+           "empty trace group: a hidden dataset never reaches "
+           "check_feature_size", node=node[0],
+           key=f"{EVT}::H5Events._features::offers every stored dataset")
+
+
 def r131(ctx, repo, model, pattern, sets):
     cls = model.cls
     s_nofl, s_fl = sets
@@ -493,6 +540,7 @@ def r131(ctx, repo, model, pattern, sets):
     seeded("feature length", "check_feature_size", "event count too large",
            m, has("'deform'"), "metadata event count N+1")
     clean("feature length", "check_feature_size")
+    r131_reader(ctx, repo, model)
 
     # 2 image size vs ROI
     for roi, val in (("roi size x", W + 1), ("roi size y", H - 1)):
@@ -513,6 +561,17 @@ def r131(ctx, repo, model, pattern, sets):
     seeded("roi size", "check_metadata_bad", "mask only", m,
            lambda c: c.cfg_key == "roi size x" and "mask" in c.msg,
            "mask contradicting roi size x (no image)")
+    # every image-like feature is compared, not only the first present one
+    for later, shp in (("mask", (N, H + 1, W)), ("mask", (N, H, W - 2)),
+                       ("image_bg", (N, H, W + 1))):
+        def m(ds, later=later, shp=shp):
+            ds.feats[later] = Arr(N, shp[1:])
+        seeded("roi size", "check_metadata_bad",
+               f"{later} {shp[1:]} contradicts the ROI, image agrees", m,
+               lambda c, later=later: c.cfg_section == "imaging"
+               and later in c.msg,
+               f"feature {later} of shape {shp[1:]} next to a consistent "
+               f"image {(H, W)}")
     clean("roi size", "check_metadata_bad")
 
     # 3 unknown features
@@ -2070,4 +2129,41 @@ TWINS = list(TWINS) + [
     ("raw-mask shortcut tested with hasattr", WR,
      ('            if data.__class__.__name__ == "H5MaskEvent":',
       '            if hasattr(data, "h5dataset"):')),
+]
+
+# round-4 seeded changes
+MUTANTS = list(MUTANTS) + [
+    ("reader hides zero-length feature datasets", EVT,
+     ('                self._features_list.remove("trace")\n'
+      '        return self._features_list',
+      '                self._features_list.remove("trace")\n'
+      '            for feat in list(self._features_list):\n'
+      '                shape = getattr(self.h5file["events"][feat], '
+      '"shape", None)\n'
+      '                if shape and shape[0] == 0:\n'
+      '                    self._features_list.remove(feat)\n'
+      '        return self._features_list'), "R13.1"),
+    ("reader keeps the empty trace group", EVT,
+     ('            if ("trace" in self._features\n'
+      '                    and len(self.h5file["events"]["trace"]) == 0):\n'
+      '                self._features_list.remove("trace")\n', ""), "R13.1"),
+    ("ROI compared with the first image-like feature only", CHK,
+     ('                                cfg_section="imaging",\n'
+      '                                cfg_key=roi))\n        return cues',
+      '                                cfg_section="imaging",\n'
+      '                                cfg_key=roi))\n'
+      '                        break\n        return cues'), "R13.1"),
+]
+TWINS = list(TWINS) + [
+    ("ROI mismatch reported once per key and feature (break after cue)",
+     CHK,
+     ('                                cfg_section="imaging",\n'
+      '                                cfg_key=roi))\n        return cues',
+      '                                cfg_section="imaging",\n'
+      '                                cfg_key=roi))\n'
+      '                            continue\n        return cues')),
+    ("reader builds the feature list with a comprehension", EVT,
+     ('            self._features_list = sorted(self.h5file["events"].keys())',
+      '            self._features_list = sorted(\n'
+      '                [ft for ft in self.h5file["events"].keys()])')),
 ]
